@@ -2161,12 +2161,24 @@ macro_rules! impl_exact_size_and_fused_iterator {
     }
 }
 
+// The compiler does not automatically derive Send and Sync for the iterators because they
+// contain raw pointers. An iterator that hands out shared references behaves like `&K`/`&V`:
+// sending it to another thread shares the keys and values, so it requires them to be `Sync`.
 macro_rules! impl_send_and_sync_for_iterator {
     ($($t:ty),*) => {
         $(
-            // The compiler does not automatically derive Send and Sync for Iter because it contains
-            // raw pointers.
-            unsafe impl<'a, K: Send, V: Send> Send for $t {}
+            unsafe impl<'a, K: Sync, V: Sync> Send for $t {}
+            unsafe impl<'a, K: Sync, V: Sync> Sync for $t {}
+        )*
+    }
+}
+
+// A mutable iterator hands out `&K` and `&mut V`: like `&K` and `&mut V` themselves it is `Send`
+// when `K: Sync` and `V: Send`.
+macro_rules! impl_send_and_sync_for_mut_iterator {
+    ($($t:ty),*) => {
+        $(
+            unsafe impl<'a, K: Sync, V: Send> Send for $t {}
             unsafe impl<'a, K: Sync, V: Sync> Sync for $t {}
         )*
     }
@@ -2215,13 +2227,16 @@ impl_exact_size_and_fused_iterator! {
 impl_send_and_sync_for_iterator! {
     MRUIter<'a, K, V>,
     LRUIter<'a, K, V>,
-    MRUIterMut<'a, K, V>,
-    LRUIterMut<'a, K, V>,
     KeysMRUIter<'a, K, V>,
     KeysLRUIter<'a, K, V>,
     ValuesMRUIter<'a, K, V>,
+    ValuesLRUIter<'a, K, V>
+}
+
+impl_send_and_sync_for_mut_iterator! {
+    MRUIterMut<'a, K, V>,
+    LRUIterMut<'a, K, V>,
     ValuesMRUIterMut<'a, K, V>,
-    ValuesLRUIter<'a, K, V>,
     ValuesLRUIterMut<'a, K, V>
 }
 
